@@ -1,15 +1,15 @@
-\* C02 reciprocity -- pinned (deviation switches of the pinned commit; emits verdicts instead of checking)
+\* C04 linearity in (source, background) -- pinned (deviation switches of the pinned commit; emits verdicts instead of checking)
 CONSTANTS
   ShiftStyle = "halo" LevelStyle = "cursor" TruncStyle = "sym" AnalyticStyle = "flat" BCubic = "minus"
   Sizes = {302, 403}
-  Cells = {11, 23}
-  Halos = {99, 0, 1, 2, 3, 4}
-  ModeSet = {202, 402, 1212}
+  Cells = {23}
+  Halos = {99, 0, 3}
+  ModeSet = {202, 1212}
   NZs = {3}
   LevelLists = "single"
   Tabs = {1}
-  Analytic = {FALSE}
-  Family = "recip"
+  Analytic = {FALSE, TRUE}
+  Family = "linear"
 INIT Init
 NEXT Next
 CHECK_DEADLOCK FALSE
